@@ -1254,6 +1254,9 @@ def apply_op(wd: World, op, step):
         if isinstance(arr, np.ndarray) and arr.ndim == 2 and arr.flags.writeable and np.issubdtype(arr.dtype, np.floating):
             arr[:, op["channel"] % arr.shape[1]] *= -1.0
             wd.user_hash = [[h_array(a_) for a_ in arrs] for arrs in wd.arrays]
+            # objects dropped by an earlier restart may hold the very same user array: what they look like now is the
+            # user's doing, the aliasing check starts again from here
+            wd.shadows = [(o_, canon_setup(o_)) for o_, _ in wd.shadows]
             wd.refs.clear()
             wd.inc("probe.user_edited_the_bound_array_in_place")
             before = wd.snapshot()
@@ -1515,6 +1518,11 @@ def _do_mpe(wd, op, step, before):
     if op.get("reuse_list") and isinstance(call_args.get("sel_freq"), list):
         # the user keeps ONE list of selected frequencies per algorithm, edits it in place and passes it again
         lst = wd.sel_lists.setdefault(ai, [])
+        if any(j != ai and a_ is not None and getattr(getattr(a_, "run_params", None), "sel_freq", None) is lst
+               for j, a_ in enumerate(wd.algs)):
+            # the list has meanwhile become part of ANOTHER algorithm's parameters (a parameter object the user shares
+            # between algorithms kept it): editing it would be the user changing that algorithm's parameters - a new list
+            lst = wd.sel_lists[ai] = []
         lst[:] = call_args["sel_freq"]
         call_args["sel_freq"] = lst
         wd.inc("probe.mpe_with_the_users_reused_list_object")
